@@ -91,3 +91,212 @@ Qed.
 
 Lemma FK_init d p : FK (map MTop p ++ [MEpilogue]) (ctxs (init d)).
 Proof. apply FK_of_flat. rewrite poppers_app. simpl. rewrite app_nil_r. induction p; simpl; auto. Qed.
+
+(* ------------------------------------------------------------------ *)
+(** * Delayed micro-ops: a pending termination, cause notification or value drop is reached through quiet
+      Core-less micro-ops only *)
+
+Definition dly (m : mop) : bool :=
+  match m with
+  | MTerminate _ _ | MValDrop _ => true
+  | MRetInvoke _ (Some (MCause _)) => true
+  | _ => false
+  end.
+
+(* a micro-op that may stand in front of a delayed one *)
+Definition gd (m : mop) : bool := qmop m && negb (is_popper m) && negb (is_acts m).
+
+(* every element with a delayed micro-op behind it is [gd] *)
+Fixpoint chk (l : list mop) : bool :=
+  match l with [] => true | y :: r => (negb (existsb dly r) || gd y) && chk r end.
+
+Lemma chk_ok pre : chk pre = true -> forall p1 x p2, pre = p1 ++ x :: p2 -> dly x = true -> forallb gd p1 = true.
+Proof.
+  revert pre. induction pre as [|y r IH]; simpl; intros H p1 x p2 E D.
+  - destruct p1; discriminate.
+  - apply andb_prop in H as [H1 H2]. destruct p1 as [|z p1]; simpl in E; inversion E; subst; [reflexivity|].
+    simpl. rewrite (IH H2 p1 x p2 eq_refl D), andb_true_r.
+    rewrite existsb_app in H1. simpl in H1. rewrite D in H1. rewrite orb_true_r in H1. simpl in H1. exact H1.
+Qed.
+
+Lemma dly_app a b : existsb dly (a ++ b) = existsb dly a || existsb dly b.
+Proof. apply existsb_app. Qed.
+Lemma dly_drops l : existsb dly (drops l) = false.
+Proof. unfold drops. induction l; simpl; auto. Qed.
+Lemma dly_slab_drops l : existsb dly (slab_drops l) = false.
+Proof. induction l as [|[c|n] l IH]; simpl; auto. Qed.
+Lemma dly_dropitems l : existsb dly (map MDropItem l) = false.
+Proof. induction l; simpl; auto. Qed.
+Lemma dly_runitems l : existsb dly (map MRunItem l) = false.
+Proof. induction l; simpl; auto. Qed.
+
+Lemma chk_nodly l : existsb dly l = false -> chk l = true.
+Proof.
+  induction l as [|y r IH]; simpl; auto. intros H. apply orb_false_elim in H as [H1 H2]. rewrite H2, (IH H2). reflexivity.
+Qed.
+
+Lemma chk_app_gd a b : forallb gd a = true -> chk (a ++ b) = chk b.
+Proof.
+  induction a as [|y a IH]; cbn [chk app forallb]; auto. intros H. apply andb_prop in H as [H1 H2]. rewrite (IH H2), H1, orb_true_r. reflexivity.
+Qed.
+
+Lemma gd_drops l : forallb gd (drops l) = true.
+Proof. unfold drops. induction l; simpl; auto. Qed.
+Lemma gd_slab_drops l : forallb gd (slab_drops l) = true.
+Proof. induction l as [|[c|n] l IH]; simpl; auto. Qed.
+Lemma gd_dropitems l : forallb gd (map MDropItem l) = true.
+Proof. induction l; simpl; auto. Qed.
+
+Lemma bind_chk s h v l s' : bind s h v = (l, s') -> existsb dly l = false.
+Proof. unfold bind. destruct (aget (env s) h); intros Q; inversion Q; reflexivity. Qed.
+Lemma bad_chk s c l s' : bad s c = (l, s') -> existsb dly l = false.
+Proof. unfold bad. intros Q; inversion Q; reflexivity. Qed.
+
+(* the pushed value drops: [MValDrop a] first *)
+Lemma state_drops_chk a sa s l s' : state_drops a sa s = (l, s') -> forall r, chk (l ++ r) = chk r /\ forallb gd l = true.
+Proof.
+  unfold state_drops. destruct sa; intros Q; inversion Q; subst; intros r.
+  - split; [apply chk_app_gd|]; apply gd_dropitems.
+  - assert (G : forallb gd (MValDrop a :: drops sh ++ slab_drops slab) = true).
+    { simpl. rewrite forallb_app, gd_drops, gd_slab_drops. reflexivity. }
+    split; [apply chk_app_gd; exact G | exact G].
+  - split; reflexivity.
+Qed.
+
+Ltac chk_tac :=
+  first [ reflexivity
+        | (apply chk_nodly; first [ reflexivity | (eapply bind_chk; eassumption) | (eapply bad_chk; eassumption)
+             | (cbn [map app existsb dly orb]; rewrite ?dly_app, ?dly_drops, ?dly_slab_drops, ?dly_dropitems, ?dly_runitems; reflexivity) ]) ].
+
+Lemma chk_app_nodly a b : existsb dly b = false -> chk (a ++ b) = chk a.
+Proof.
+  intros H. induction a as [|y a IH]; cbn [chk app]; [apply chk_nodly; exact H|]. rewrite IH, dly_app, H, orb_false_r. reflexivity.
+Qed.
+
+Lemma do_act_chk a s pre s' : do_act a s = (pre, s') -> chk pre = true.
+Proof.
+  unfold do_act. destruct a; repeat dest_match; intros Q; LinDel.inj_pair Q; chk_tac.
+Qed.
+
+Ltac chk2 := intros Q; LinDel.inj_pair Q; chk_tac.
+
+Lemma handle_chk mo s pre s' : handle mo s = (pre, s') -> chk pre = true.
+Proof.
+  destruct mo; cbn [handle].
+  - unfold do_top. destruct o; repeat dest_match; chk2.
+  - destruct l as [|a l]; [chk2|]. destruct (do_act a s) as [p s1] eqn:E. intros Q; inversion Q; subst.
+    rewrite chk_app_nodly by reflexivity. eapply do_act_chk; eauto.
+  - destruct (frames s); chk2.
+  - destruct (frames s) as [|fr rest]; [chk2|]. intros Q; inversion Q; subst. rewrite chk_app_gd by apply gd_drops.
+    destruct f; try destruct (f_die fr); try destruct ready; reflexivity.
+  - unfold run_item. destruct c as [u i kd caps q]. destruct kd; repeat dest_match; chk2.
+  - unfold drop_item. destruct c as [u i kd caps q]. destruct kd; chk2.
+  - chk2.
+  - unfold drop_val. destruct v; repeat dest_match; chk2.
+  - unfold drop_own. destruct logged; repeat dest_match; chk2.
+  - unfold drop_ref. destruct (aget (actors s) a) as [y|]; [|chk2]. destruct (a_freed y); [chk2|].
+    destruct (minrc_drop (a_rc y)) as [[v z]|]; [|chk2]. destruct z; [|chk2].
+    destruct (state_drops a (a_state y) _) as [dl s2] eqn:SD. intros Q; inversion Q; subst.
+    destruct (state_drops_chk _ _ _ _ _ SD []) as [C1 G1]. rewrite app_nil_r in C1.
+    destruct (a_notify y); simpl app; [|exact C1]. cbn [chk]. rewrite C1. simpl. rewrite orb_true_r. reflexivity.
+  - unfold ret_invoke. destruct r as [rid k]. destruct k; repeat dest_match; chk2.
+  - chk2.
+  - chk2.
+  - chk2.
+  - chk2.
+  - unfold terminate. destruct (aget (actors s) a) as [y|]; [|chk2].
+    destruct (state_drops a (a_state y) _) as [dl s2] eqn:SD.
+    destruct (a_notify y); intros Q; inversion Q; subst.
+    + destruct (state_drops_chk _ _ _ _ _ SD [MLogClose a c; MRetInvoke r (Some (MCause c))]) as [C1 G1]. rewrite C1. reflexivity.
+    + destruct (state_drops_chk _ _ _ _ _ SD []) as [C1 G1]. rewrite app_nil_r in C1. exact C1.
+  - destruct (aget (actors s) a); chk2.
+  - destruct (aget (actors s) a) as [y|]; [destruct (a_state y)|]; chk2.
+  - chk2.
+  - destruct idle; [destruct (idleq s)|]; chk2.
+  - destruct (t >? now (set_mainq s [])); [destruct (fire t _) as [f s2]|]; chk2.
+  - repeat dest_match; chk2.
+  - repeat dest_match; chk2.
+  - intros Q; inversion Q; subst. apply chk_nodly. rewrite dly_app, dly_dropitems. reflexivity.
+  - repeat dest_match; chk2.
+  - repeat dest_match; chk2.
+  - chk2.
+  - chk2.
+Qed.
+
+Definition DT (k : list mop) (s : st) : Prop :=
+  forall w x rest, k = w ++ x :: rest -> dly x = true -> DP w s.
+
+Lemma gd_facts p : forallb gd p = true -> forallb qmop p = true /\ poppers p = [] /\ existsb is_acts p = false.
+Proof.
+  induction p as [|y p IH]; simpl; auto. intros H. apply andb_prop in H as [H1 H2]. destruct (IH H2) as (A & B & C).
+  unfold gd in H1. apply andb_prop in H1 as [H1 H3]. apply andb_prop in H1 as [H1 H4].
+  apply negb_true_iff in H3, H4. rewrite H1, A, H3, C. unfold poppers in *. simpl. rewrite H4. auto.
+Qed.
+
+Theorem step_DT k s k' s' : DT k s -> step k s = Some (k', s') -> DT k' s'.
+Proof.
+  intros D H. destruct k as [|mo k0]; [discriminate|]. simpl in H.
+  destruct (handle mo s) as [pre s1] eqn:E. inversion H; subst; clear H.
+  intros w' x rest' SPL DX.
+  destruct (app_split pre k0 w' x rest' SPL) as [(w0 & K0 & ->)|(p2 & PRE & _)].
+  - (* already pending *)
+    assert (OLD : DP (mo :: w0) s) by (apply (D (mo :: w0) x rest'); [rewrite K0; reflexivity | exact DX]).
+    destruct OLD as [OQ (fs & fs' & FR & LN & FX) OA]. simpl in OQ. apply andb_prop in OQ as [QM OQ].
+    destruct (handle_qmop _ _ _ _ QM E) as [QP HC].
+    assert (NQ : forallb qmop (pre ++ w0) = true) by (rewrite forallb_app, (quiet_qmops _ QP), OQ; reflexivity).
+    assert (AC : acts_closed (pre ++ w0)).
+    { apply (acts_closed_step mo w0 pre OA); [|auto].
+      destruct (is_acts mo) eqn:IA; [left; reflexivity | right].
+      destruct (qmop_pre _ _ _ _ E QM IA) as [p D1 D2|b]; [left; exact D2 | right; eauto]. }
+    split; auto.
+    destruct HC as [O|c M C P S|fr rs M F P S].
+    + assert (NP : is_popper mo = false).
+      { destruct mo; try reflexivity; try discriminate QM. exfalso. simpl in LN. cbn [handle] in E.
+        destruct (frames s) as [|f0 r0] eqn:F0.
+        - destruct fs; simpl in *; [discriminate | discriminate].
+        - inversion E; subst. destruct O as [EF PP|s2 loc EF X PP].
+          + apply eff_ctxs in EF. simpl in EF. rewrite F0 in EF. simpl in EF. apply (f_equal (@length ctx)) in EF. simpl in EF. rewrite !map_length in EF. lia.
+          + rewrite poppers_drops in PP. discriminate. }
+      rewrite LinDel.poppers_cons, NP in LN.
+      destruct O as [EF PP|s2 loc EF X PP].
+      * destruct (ctxs_split (frames s') fs fs') as (gs & gs' & A & B & C); [rewrite (eff_ctxs _ _ EF), FR; reflexivity | exact FX |].
+        exists gs, gs'. rewrite poppers_app, PP. simpl. repeat split; auto. lia.
+      * destruct (ctxs_split (frames s2) fs fs') as (gs & gs' & A & B & C); [rewrite (eff_ctxs _ _ EF), FR; reflexivity | exact FX |].
+        subst s'. exists (mkFrame XNone loc None :: gs), gs'. rewrite poppers_app, PP. unfold push_frame. simpl. rewrite A.
+        repeat split; auto. simpl. lia.
+    + subst. exists fs, fs'. rewrite poppers_app, poppers_drops. simpl in *. repeat split; auto.
+    + subst. simpl in LN. rewrite F in FR. destruct fs as [|f0 fs]; simpl in *; [discriminate|]. inversion FR; subst.
+      inversion FX; subst. exists fs, fs'. rewrite poppers_app, poppers_drops. simpl. repeat split; auto.
+  - (* pushed by this step: its prefix inside [pre] is made of plain quiet micro-ops *)
+    destruct (gd_facts _ (chk_ok _ (handle_chk _ _ _ _ E) w' x p2 PRE DX)) as (A & B & C).
+    split; auto.
+    + exists [], (frames s'). rewrite B. simpl. auto.
+    + apply acts_closed_nil_acts. exact C.
+Qed.
+
+Lemma DT_init d p : DT (map MTop p ++ [MEpilogue]) (init d).
+Proof.
+  intros w x rest H DX. exfalso.
+  assert (IN : In x (map MTop p ++ [MEpilogue])) by (rewrite H; apply in_or_app; right; left; reflexivity).
+  apply in_app_or in IN as [IN|[IN|[]]]; [|subst; discriminate DX]. apply in_map_iff in IN as (o & Q & _). subst. discriminate DX.
+Qed.
+
+(** consequences *)
+
+(* a non-quiet head (an item about to run, a phase or top-level micro-op): nothing delayed is pending *)
+Lemma DT_flat mo k0 s : DT (mo :: k0) s -> qmop mo = false -> existsb dly k0 = false.
+Proof.
+  intros D Q. destruct (existsb dly k0) eqn:X; auto. exfalso.
+  apply existsb_exists in X as (x & IN & DX). apply in_split in IN as (a & b & ->).
+  destruct (D (mo :: a) x b eq_refl DX) as [OQ _ _]. simpl in OQ. rewrite Q in OQ. discriminate.
+Qed.
+
+(* acts in front of a delayed micro-op run in a Core-less frame *)
+Lemma DT_ctx l k0 s : DT (MActs l :: k0) s -> existsb dly k0 = true -> cur_ctx s = XNone.
+Proof.
+  intros D H. apply existsb_exists in H as (x & IN & DX). apply in_split in IN as (w & rest & ->).
+  destruct (D (MActs l :: w) x rest eq_refl DX) as [_ (fs & fs' & FR & LN & FX) AC].
+  specialize (AC [] l w eq_refl). simpl in LN.
+  destruct fs as [|f fs]; [destruct (poppers w); [congruence | discriminate]|].
+  unfold cur_ctx. rewrite FR. simpl. inversion FX; subst. exact H1.
+Qed.
